@@ -782,6 +782,10 @@ def fam_recurse(rnd, i):
                 dirs.append(d)
         steps += [new(w, rnd.choice([0, 0, 8])), call(w, "add", ("r",), rnd.choice(["rel", "abs", "dot", "trail"]), rnd, recurse=True), drain(w)]
         dirs = [("r",)] + dirs
+    if not two_roots and rnd.random() < 0.3:
+        # a directory whose own name ends in \\... , added on its own (not recursively): its siblings are not watched by that
+        steps += [fs("mkdir", ("q",)), fs("mkdir", ("q", "BS1")), fs("mkdir", ("q", "other")), call(w, "add", ("q", "BS1"), "rel"),
+                  fs("create", ("q", "sib")), fs("create", ("q", "other", "f")), fs("create", ("q", "BS1", "in")), drain(w)]
     cnt = [0]
 
     def fresh(prefix):
